@@ -5,6 +5,7 @@ pub mod errs;
 pub mod listview;
 pub mod pod;
 pub mod seeds;
+pub mod tlv;
 pub mod token;
 
 pub fn generate(prop: &str, tier: &str, rng: &mut Rng) -> Vec<String> {
@@ -13,6 +14,8 @@ pub fn generate(prop: &str, tier: &str, rng: &mut Rng) -> Vec<String> {
         "C17" => token::generate_c17(tier, rng),
         "C13" => pod::generate_c13(tier, rng),
         "C18" => disc::generate(tier, rng),
+        "C02" => tlv::generate_c02(tier, rng),
+        "C01" | "C03" | "C04" => tlv::generate_hist(prop, tier, rng),
         "C09" => listview::generate_c09(tier, rng),
         "C10" => listview::generate_c10(tier, rng),
         "C11" => seeds::generate(tier, rng),
@@ -27,6 +30,7 @@ pub fn run(prop: &str, cases: &[String]) -> RunOut {
         "C16" | "C17" => token::run(prop, cases),
         "C13" | "C14" => pod::run(prop, cases),
         "C18" => disc::run(cases),
+        "C01" | "C02" | "C03" | "C04" => tlv::run(prop, cases),
         "C09" | "C10" => listview::run(prop, cases),
         "C11" => seeds::run(cases),
         "C19" => errs::run(cases),
